@@ -311,9 +311,15 @@ def hardware_grid(sets, names, repo, workdir):
     env['CARGO_NET_OFFLINE'] = 'true'
     env['CARGO_TARGET_DIR'] = scratchcrate.target_dir()
     t0 = time.time()
-    p = subprocess.run(['cargo', 'test', '--offline', '--lib', 'verif_grid::verif_grid', '--', '--exact', '--nocapture'],
-                       cwd=crate, env=env, stdout=subprocess.PIPE, stderr=subprocess.STDOUT, text=True, timeout=1500)
-    out = p.stdout
+    exe, files, log = scratchcrate.build_test(crate, unique, ['--lib'])
+    try:
+        if exe:
+            p = subprocess.run([exe, 'verif_grid::verif_grid', '--exact', '--nocapture'], cwd=crate, env=env, stdout=subprocess.PIPE, stderr=subprocess.STDOUT, text=True, timeout=1500)
+            out = p.stdout
+        else:
+            out = 'build failed: ' + log
+    finally:
+        scratchcrate.cleanup_files(files)
     shutil.rmtree(crate, ignore_errors=True)
     scratchcrate.cleanup(unique)
     per, fails, total = {}, [], 0
@@ -361,9 +367,15 @@ fn verif_replay() {
     env = dict(os.environ)
     env['CARGO_NET_OFFLINE'] = 'true'
     env['CARGO_TARGET_DIR'] = scratchcrate.target_dir()
-    p = subprocess.run(['cargo', 'test', '--offline', '--lib', 'verif_replay::verif_replay', '--', '--exact', '--nocapture'],
-                       cwd=crate, env=env, stdout=subprocess.PIPE, stderr=subprocess.STDOUT, text=True, timeout=1500)
-    out = p.stdout
+    exe, files, log = scratchcrate.build_test(crate, unique, ['--lib'])
+    try:
+        if exe:
+            p = subprocess.run([exe, 'verif_replay::verif_replay', '--exact', '--nocapture'], cwd=crate, env=env, stdout=subprocess.PIPE, stderr=subprocess.STDOUT, text=True, timeout=1500)
+            out = p.stdout
+        else:
+            out = 'build failed: ' + log
+    finally:
+        scratchcrate.cleanup_files(files)
     shutil.rmtree(crate, ignore_errors=True)
     scratchcrate.cleanup(unique)
     if 'REPLAY-ASSUMPTION-VIOLATED' in out or 'ran out of recorded values' in out:
